@@ -16,8 +16,8 @@ LEVEL = "model_checking"
 ROUTES = ("ctor", "setattr", "inplace", "parse", "parse_unknown", "grow_after_len")
 
 UNKNOWN = [
-    wire.make_rec(7, wire.VARINT, 300),
-    wire.make_rec(8, wire.LEN, b"\x08\x01xyz"),
+    wire.make_rec(7, wire.VARINT, 300, val_pad=4),            # legal non-minimal encodings: the raw
+    wire.make_rec(8, wire.LEN, b"\x08\x01xyz", len_pad=2, tag_pad=3),   # bytes are kept, so they count
     wire.make_rec(9, wire.FIXED32, b"\x01\x02\x03\x04"),
     wire.make_rec(10, wire.FIXED64, b"\x01\x02\x03\x04\x05\x06\x07\x08"),
 ]
